@@ -1,4 +1,5 @@
 import NpsVerif.Gen.BridgeTac
+set_option linter.unusedVariables false
 namespace Gen.Bridge
 theorem view2_ends_bridge (len start0 cstep : Int) :
     Cur.view2_ends len start0 cstep = Ref.view2_ends len start0 cstep := by
